@@ -345,7 +345,7 @@ def c03(ctx):
     logs = ctx.design("MC_Converge", "MC_Converge_quick.cfg" if q else "MC_Converge_thorough.cfg", sample=60 if q else 500)
     if not ctx.gv("tlc-logs", "Trace_Table", ["table", "--mode", "convlog", "--seed", str(seed())], inputs=logs):
         return
-    n, ops = (120, 12) if q else (6000, 16)
+    n, ops = (120, 12) if q else (3000, 16)
     if not ctx.gv("random-logs", "Trace_Table", ["table", "--mode", "converge", "--seed", str(seed()), "--n", str(n), "--ops", str(ops)]):
         return
     # what the state machines of the REPOSITORY'S OWN TESTS did (engines, servers, replication workers, restores of the
@@ -402,7 +402,7 @@ def c13(ctx):
     logs = ctx.design("MC_MetaKV", "MC_MetaKV_quick.cfg" if q else "MC_MetaKV_thorough.cfg", sample=400 if q else 4000)
     if not ctx.gv("tlc-logs", "Trace_MetaKV", ["metakv", "--mode", "convlog", "--seed", str(seed())], inputs=logs):
         return
-    n, ops = (150, 25) if q else (8000, 40)
+    n, ops = (150, 25) if q else (4000, 40)
     if not ctx.gv("random-logs", "Trace_MetaKV", ["metakv", "--mode", "lfsm", "--seed", str(seed()), "--n", str(n), "--ops", str(ops)]):
         return
     n, ops = (5, 40) if q else (40, 120)
@@ -512,7 +512,7 @@ def c06(ctx):
                         "where a size limit cuts an answer is not pinned; only contiguity, labels, bounds, the special answers and 'at least one entry' are"]
     q = ctx.quick
     ctx.design("MC_LogReader", "MC_LogReader_quick.cfg" if q else "MC_LogReader_thorough.cfg")
-    beh = ctx.generate("MC_LogReader", "MC_LogReader_gen.cfg", num=800 if q else 40000, depth=16)
+    beh = ctx.generate("MC_LogReader", "MC_LogReader_gen.cfg", num=800 if q else 25000, depth=16)
     if not ctx.gv("tlc-schedules", "Trace_LogReader", ["logreader", "--seed", str(seed())], inputs=beh):
         return
     # adversarial schedules: every behaviour (<= 7 steps, 2 sessions) on which the model of the PINNED commit
@@ -559,7 +559,7 @@ def c04(ctx):
     ctx.assumptions += DISK_ASSUME + TABLE_ASSUME
     q = ctx.quick
     ctx.design("TableDisk", "MC_TableDisk_quick.cfg" if q else "MC_TableDisk_thorough.cfg")
-    n = 25 if q else 1500
+    n = 25 if q else 800
     if not ctx.gv("crash-points", "Trace_Table", ["disk", "--mode", "crash", "--seed", str(seed()), "--n", str(n)]):
         return
     # an apply batch of 27 MiB whose entries read inside the batch: memtable rotations / flushes fall inside FSM.Update
@@ -584,7 +584,7 @@ def c08(ctx):
     if not ctx.gv("stopped-installs", "Trace_Table", ["disk", "--mode", "install", "--seed", str(seed()), "--n", str(8 if q else 250)]):
         return
     # crashes at every file-system operation of scenarios that contain a snapshot install
-    ctx.gv("crash-points", "Trace_Table", ["disk", "--mode", "crash", "--seed", str(seed() + 5), "--n", str(15 if q else 1000)])
+    ctx.gv("crash-points", "Trace_Table", ["disk", "--mode", "crash", "--seed", str(seed() + 5), "--n", str(15 if q else 400)])
 
 
 @check("C10")
